@@ -191,12 +191,18 @@ def characters(pwm, alphabet=['A', 'C', 'G', 'T'], force=False, allow_N=False):
 		raise ValueError("PWM must have the same alphabet size as the " +
 			"provided alphabet.")
 
+	if pwm.shape[-1] == 0:
+		return ''
+
+	if pwm.dtype == torch.bfloat16:
+		pwm = pwm.float()
+
 	pwm_ismax = pwm == pwm.max(dim=0, keepdims=True).values
 	if pwm_ismax.sum(axis=0).max() > 1 and force == False and allow_N == False:
 		raise ValueError("At least one position in the PWM has multiple " +
 			"letters with the same probability.")
 
-	alphabet = numpy.array(alphabet)
+	alphabet = numpy.array(alphabet, dtype=object)
 	if isinstance(pwm, torch.Tensor):
 		pwm = pwm.numpy(force=True)
 
